@@ -9,6 +9,13 @@ CHECKS = {
                 note="Trusts LLVM 14's optimiser and the /verif normaliser rewrites (each sound, listed in DESIGN 2.2); GCC configuration is obtained by #undef __clang__ under clang; equality is claimed wherever the CNL kernel's own evaluation is defined."),
 }
 
+CHECKS["C01"] = dict(level="translation_validation", design="3/C01", technique="static translation validation of generated kernels (CNL expression vs aligned built-in arithmetic) as normal forms of optimised LLVM IR + type facts on result exponent/rep + power<> algebra grid",
+    text="For each operator x rep pair x exponent difference x radix the CNL kernel is shown equal, for all operand values, to 'multiply the coarser operand by Radix^d in its promoted rep, then apply the built-in operator'; the result exponent (min / sum) and rep are type facts checked under clang and g++; power_value<T,N,R>() == R^N.",
+    note="Equality under wrap semantics on both sides; real-arithmetic exactness follows only under the property's own restriction (aligned operands and result fit). Multi-limb reps are not covered at value level.")
+CHECKS["C05"] = dict(level="proof", design="3/C05", technique="type-level facts (declared digits, signedness, rep of every result type) read from clang and g++ and judged by an exact interval-arithmetic oracle; IR equivalence kernels for operand widening",
+    text="Ranges are type-level in elastic_integer: for every (op, digits, signedness, narrowest) in the matrix the declared range of the result type must contain the exact hull of the operation over the operands' declared ranges and fit its rep; numeric_limits must report that range; EQ kernels show that operands are converted to a type holding both operands and the result before the built-in operator runs.",
+    note="Oracle: exact Python integers, C++20 semantics of / % >> on LP64. One template body per operator: value-level EQ on a boundary-rich digit subset + type facts on the full matrix. Bitwise operators are outside the statement.")
+
 NOT_APPLICABLE = {
     "C10": "limb-array loops of the vendored uintwide_t have data-dependent control; no static abstraction in reach relates them to arithmetic mod 2^N (DESIGN 3/C10)",
     "C17": "termination/accuracy of the floating-point driven Stern-Brocot loop is a numerical statement with no structural clause (DESIGN 3/C17)",
